@@ -49,7 +49,7 @@ Lemma do_enter_ext c s a t : ext s (do_enter c s a t).
 Proof.
   unfold do_enter. pose proof (entry_check_ext c s a) as H.
   destruct (entry_check c s a) as [[[s1 v] tr] sv]. cbn [fst] in H.
-  destruct (shp c), v; try exact H;
+  destruct (shp c), v; try destruct (state_trig tr); try exact H;
     try (eapply ext_trans; [exact H|apply entry_record_ext]);
     try (eapply ext_trans; [exact H|apply ext_same; reflexivity]).
 Qed.
